@@ -51,3 +51,95 @@ def ambiguous(bottom: dict, top: dict) -> bool:
 
 def acl_header(platform: str, name: str = "T", typ: str = "extended") -> str:
     return f"ip access-list {typ} {name}" if platform == "ios" else f"ip access-list {name}"
+
+
+# --------------------------------------------------------------------------------------- region sampling
+def _addr_candidates(addr: R.Addr):
+    out = []
+    for base, wild in addr.pairs()[:3]:
+        out.append(base)
+        out.append(base | wild)
+        for bit in range(32):
+            if not wild >> bit & 1:
+                out.append((base ^ (1 << bit)) & R.ALL1)
+                break
+        for bit in range(31, -1, -1):
+            if not wild >> bit & 1:
+                out.append((base ^ (1 << bit)) & R.ALL1)
+                break
+    return out or [0]
+
+
+def _port_candidates(spec):
+    if spec is None:
+        return [1, 80, 65535]
+    out = set()
+    for a, b in spec.ivs[:3] + spec.ivs[-1:]:
+        out.update(x for x in (a - 1, a, b, b + 1) if 1 <= x <= 65535)
+    return sorted(out) or [1, 65535]
+
+
+def sample_packets(rules, limit: int = 400):
+    """Packets around the boundaries of every rule (inside and just outside each component)."""
+    packets = []
+    for r in rules:
+        protos = [r.proto] if r.proto else [6, 17, 1]
+        if r.proto and r.proto not in (6, 17):
+            protos.append(6)
+        srcs, dsts = _addr_candidates(r.src), _addr_candidates(r.dst)
+        fs = r.flagset
+        flagsets = [(), tuple(R.TCP_FLAGS)] + ([(f,) for f in sorted(fs)] if fs else [("ack",), ("syn",)])
+        for proto in protos:
+            sps = _port_candidates(r.sport) if proto in (6, 17) else [None]
+            dps = _port_candidates(r.dport) if proto in (6, 17) else [None]
+            fls = flagsets if proto == 6 else [()]
+            combos = [(proto, s, d, sp, dp, fl) for s in srcs for d in dsts for sp in sps for dp in dps for fl in fls]
+            stride = max(1, len(combos) // 60)
+            packets.extend(combos[::stride])
+    if len(packets) > limit:
+        packets = packets[:: max(1, len(packets) // limit)]
+    return packets
+
+
+def first_match_differs(rules_a, rules_b):
+    """A packet whose first-match decision differs between two rule lists, or None (cross-check only)."""
+    for pkt in sample_packets(list(rules_a) + list(rules_b)):
+        da, db = R.first_match(rules_a, pkt), R.first_match(rules_b, pkt)
+        if da != db:
+            return {"packet": {"proto": pkt[0], "src": R.int2ip(pkt[1]), "dst": R.int2ip(pkt[2]), "sport": pkt[3],
+                               "dport": pkt[4], "flags": list(pkt[5])}, "before": da, "after": db}
+    return None
+
+
+def build_acl(acl_case: dict, **extra):
+    """Acl from a generated program; member networks are attached to group addresses."""
+    from cisco_acl import Acl
+
+    acl = Acl(G.render_acl(acl_case, noise=False), **dict(G.acl_kwargs(acl_case), **extra))
+    flat = list(flat_items(acl.items))
+    if len(flat) == len(acl_case["items"]):
+        for obj, it in zip(flat, acl_case["items"]):
+            if it["t"] == "ace":
+                attach_members(obj, it["rec"])
+    return acl
+
+
+def flat_items(items):
+    from cisco_acl import AceGroup
+
+    for it in items:
+        if isinstance(it, AceGroup):
+            yield from flat_items(it.items)
+        else:
+            yield it
+
+
+def flat_with_block(items, block=None):
+    """(line, block-name) for every rendered line; block-name is the owning AceGroup's name or None."""
+    from cisco_acl import AceGroup
+
+    for it in items:
+        if isinstance(it, AceGroup):
+            yield from flat_with_block(it.items, it.name)
+        else:
+            yield (it.line, block)
